@@ -248,8 +248,9 @@ def run(ctx):
                      f"Survey.xml[{desc}]:validate-first", "validation precedes all generation, on every call (the survey may have been edited since the last one)", xml_fn.loc(), why_fail=f"order={order}")
     # model children order
     xm = scls.methods.get("xml_model")
-    for trans in (False, True):
-        for subm in (False, True):
+    ed_cls_ = repo.cls("pyxform.entities.entity_declaration:EntityDeclaration")
+    for trans, subm, entity in itertools.product((False, True), (False, True), (False, True)):
+        if True:
             mo = []
             ITEXT, PRIMARY = NodeVal("itext"), NodeVal("data")
             SEC, BIND, ACT = NodeVal("instance", attrs={"id": "sec"}), NodeVal("bind"), NodeVal("odk:recordaudio")
@@ -264,19 +265,27 @@ def run(ctx):
                 "fnname:xml_descendent_bindings": lambda i, a, k, n: GenList([BIND, None]),
                 "fnname:xml_actions": lambda i, a, k, n: GenList([ACT]),
             }
+            if entity:
+                # an entity-updating form: the declaration is among the descendants, the features are listed
+                decl_ = Obj(ed_cls_, {"name": "entity", "type": "entity", "parameters": {"dataset": "trees", "entity_id": "${tree}", "update_if": "true()", "label": "a"}}, name="entity")
+                mh["fnname:iter_descendants"] = lambda i, a, k, n, decl_=decl_: iter([x_ for x_ in [decl_] if (k.get("condition") is None or i.truth(i.call(k["condition"], [x_], {}, n)))])
             it = ctx.interp("C01.R3", hooks=mh)
-            s = Obj(scls, {"_translations": {"en": {}} if trans else {}, "entity_features": None,
+            s = Obj(scls, {"_translations": {"en": {}} if trans else {}, "entity_features": (["create", "update", "offline"] if entity else None),
                            "submission_url": Sym("URL", truthy=True, pytype=str) if subm else None, "public_key": None,
                            "auto_send": None, "auto_delete": None}, name="survey")
             it.reset([])
             model = it.call_function(xm, [s], {}, None, xm.node)
-            desc = f"translations={trans} submission={subm}"
+            desc = f"translations={trans} submission={subm}" + (" entity-updating form" if entity else "")
             ok = isinstance(model, NodeVal) and model.tag == "model"
             if ok:
                 kids = model.children
                 exp_tags = (["submission"] if subm else []) + (["itext"] if trans else []) + ["instance", "instance", "bind", "odk:recordaudio"]
                 got = [k.tag if isinstance(k, NodeVal) else repr(k) for k in kids]
                 okk = got == exp_tags
+                if entity:
+                    # (further secondary instances are a matter for C09 / C19; what C01 fixes is the order of the kinds)
+                    import re as _re_m
+                    okk = bool(_re_m.fullmatch(r"(submission )?(itext )?(instance )+bind odk:recordaudio ", "".join(t_ + " " for t_ in got)))
                 first_inst = next((k for k in kids if isinstance(k, NodeVal) and k.tag == "instance"), None)
                 okk = okk and first_inst is not None and first_inst.children == [PRIMARY] and not first_inst.attrs
                 r3.check(okk, f"Survey.xml_model[{desc}]", "model children: [submission][itext] instance(primary, exactly one root) secondary-instances binds actions",
